@@ -1,5 +1,5 @@
 From Coq Require Import List NArith ZArith Permutation.
-From SK Require Import lib.LGraph model.C08_Model proof.C08_Spec proof.C08_Faithful proof.C08_Nauty.
+From SK Require Import lib.LGraph lib.StrJoin model.C08_Model proof.C08_Spec proof.C08_Faithful proof.C08_Nauty proof.C08_SigFun.
 Import ListNotations.
 
 (** 1. Faithfulness: the canonical graph is the input relabelled by a map that is injective on its nodes;
@@ -39,3 +39,21 @@ Theorem C08_onto_1N_nauty : forall g : graph, NoDup (node_ids g) ->
   Permutation (node_ids (canon_nauty g)) (map N.of_nat (seq 1 (length (gnodes g)))).
 Proof. exact onto_nauty. Qed.
 Print Assumptions C08_onto_1N_nauty.
+
+(** 3. The signature (digest of the serialisation of the canonical graph) is a deterministic function of the graph
+       as a mathematical object: two presentations with the same labelled node set and the same labelled set of
+       unordered edges on the covered attributes (whatever the insertion order of nodes and edges, the orientation
+       in which an edge is stored, and the uncovered attributes such as atom_map) get the same signature.
+       [geq_cov g h] = Permutation (cov_nodes g) (cov_nodes h) /\ Permutation (cov_edges g) (cov_edges h).
+       wl / morgan: for any ranking (the colours are a function of the graph; oracle input of the model). *)
+Theorem C08_signature_function_generic : forall (D : Type) (digest : str -> D) (g h : graph),
+  wf g -> wf h -> geq_cov g h ->
+  digest (serialise (canon_generic g)) = digest (serialise (canon_generic h)).
+Proof. exact signature_function_generic. Qed.
+Print Assumptions C08_signature_function_generic.
+
+Theorem C08_signature_function_wl_morgan : forall (D : Type) (digest : str -> D) (ranks : list (N * Z)) (g h : graph),
+  wf g -> wf h -> geq_cov g h ->
+  digest (serialise (canon_rank ranks g)) = digest (serialise (canon_rank ranks h)).
+Proof. exact signature_function_rank. Qed.
+Print Assumptions C08_signature_function_wl_morgan.
